@@ -422,7 +422,7 @@ def _stmts_in_F(stmts, fields):
 
 def c01_programs(tier, sd):
     rnd = random.Random(sd)
-    out = atomic_programs(tier, rnd) + statement_programs(tier, rnd) + structure_programs(tier, rnd)
+    out = atomic_programs(tier, rnd) + statement_programs(tier, rnd) + structure_programs(tier, rnd) + constfold_programs(tier, rnd)
     if tier == "thorough":
         out += random_programs(rnd, 1500)
     else:
@@ -506,3 +506,103 @@ def random_programs(rnd, n):
                 nonr[f[0]] = rnd.choice(boundary_values(f[2], f[1] == "s"))
         out.append(spec_single("random", "seeded random program #%d" % i, fields, stmts, [nonr]))
     return out
+
+
+# ------------------------------------------------------------------------------------------ C02 families
+def constfold_programs(tier, rnd):
+    """if-conditions over non-random fields only: folded before solving with Python integer semantics
+    (ArrayConstraintBuilder.visit_constraint_if_else / XExprEvaluator); must agree with the fixed-width meaning"""
+    out = []
+    a, b = F("a"), F("b")
+    n1, n2, n3, s1 = F("n1"), F("n2"), F("n3"), F("s1")
+    fields = [fld("a", ("u", 8)), fld("b", ("u", 8)), fld("n1", ("u", 8), False), fld("n2", ("u", 8), False),
+              fld("n3", ("u", 8), False), fld("s1", ("s", 8), False)]
+    conds = [
+        ["==", n1, lit(3)], ["<", n1, n2], ["==", ["+", n1, n2], n3], ["==", ["-", n1, n2], n3], ["<", ["-", n1, n2], n3],
+        ["==", ["&", n1, n2], n3], ["==", ["|", n1, n2], n3], ["==", ["^", n1, n2], n3], ["==", ["*", n1, n2], n3],
+        ["==", ["<<", n1, ["ulit", 1, 2]], n3], ["==", [">>", n1, ["ulit", 1, 2]], n3], ["<", s1, lit(0)], [">", n1, s1],
+        ["not", ["==", n1, lit(3)]], ["&", ["==", n1, lit(3)], ["<", n2, n3]], ["|", ["==", n1, lit(3)], ["<", n2, n3]],
+        ["in", n1, [["rng", lit(2), lit(5)], lit(9)]], ["notin", n1, [lit(3)]], ["==", ["ps", n1, 3, 0], ["ulit", 3, 4]],
+        ["==", ["bit", n1, 7], ["ulit", 1, 1]], ["==", ["%", n1, n2], n3], ["==", ["/", n1, n2], n3],
+    ]
+    vals = [
+        {"n1": 3, "n2": 9, "n3": 12, "s1": -1}, {"n1": 200, "n2": 100, "n3": 44, "s1": -128}, {"n1": 3, "n2": 7, "n3": 252, "s1": 5},
+        {"n1": 0x83, "n2": 0x0f, "n3": 3, "s1": 127}, {"n1": 6, "n2": 3, "n3": 2, "s1": -3}, {"n1": 128, "n2": 1, "n3": 0, "s1": 0},
+        {"n1": 255, "n2": 2, "n3": 254, "s1": -2},
+    ]
+    t = types_of(fields)
+
+    def cclass(c):
+        txt = str(c)
+        if "'not'" in txt or "'notin'" in txt:
+            return "not"
+        if "'ps'" in txt or "'bit'" in txt:
+            return "select"
+        if any(("'%s'" % o) in txt for o in ("+", "-", "*", "<<", ">>", "/", "%", "^")) or (c[0] == "==" and c[1][0] in ("&", "|")):
+            return "arith"
+        if "'s1'" in txt:
+            return "mixed_sign_cmp"
+        return "simple"
+    for c in conds:
+        if not in_F(c, t):
+            continue
+        if c[0] == "==" and c[1][0] in ("/", "%"):
+            vs = [v for v in vals if v["n2"] != 0]
+        else:
+            vs = vals
+        out.append(spec_single("constfold", "if %s (non-random condition)" % (c,), fields,
+                               [["if", [[c, [E(["==", a, lit(1)])]]], [E(["==", a, lit(2)])]], E(["<", b, lit(10)])], vs))
+        out.append(spec_single("constfold", "if/elif %s" % (c,), fields,
+                               [["if", [[["==", b, lit(77)], [E(["==", a, lit(0)])]], [c, [E(["==", a, lit(1)])]]], [E(["==", a, lit(2)])]]], vs))
+        out.append(spec_single("constfold", "implies %s" % (c,), fields, [["implies", c, [E(["==", a, lit(1)])]], E(["!=", a, lit(1)])], vs))
+        # inside a foreach the folded branch replaces the if/else in the expanded copy
+        lfields = fields + [["l", "list", ["u", 8], 3, True, False]]
+        out.append(spec_single("constfold_foreach", "foreach: if %s" % (c,), lfields,
+                               [["foreach", ["l"], "i", [["if", [[c, [E(["==", ["it", "i"], lit(1)])]]], [E(["==", ["it", "i"], lit(2)])]]]]], vs))
+        out.append(spec_single("constfold_foreach", "foreach: if idx / elif %s" % (c,), lfields,
+                               [["foreach", ["l"], "i", [["if", [[["==", ["idx", "i"], ["ulit", 0, 32]], [E(["==", ["it", "i"], lit(7)])]],
+                                                               [c, [E(["==", ["it", "i"], lit(1)])]]], [E(["==", ["it", "i"], lit(2)])]]]]], vs))
+        for sp in out[-5:]:
+            sp["cond_class"] = cclass(c)
+    return out
+
+
+def unsat_programs(tier, rnd):
+    out = []
+    a, b, c = F("a"), F("b"), F("c")
+    f3 = [fld("a", ("u", 8)), fld("b", ("u", 8)), fld("c", ("s", 8))]
+    progs = [
+        [E(["<", a, lit(3)]), E([">", a, lit(5)])],
+        [E(["<", a, b]), E(["<", b, a])],
+        [E(["==", ["+", a, lit(1)], lit(0)]), E(["<", a, lit(255)])],
+        [E(["==", ["+", a, ["ulit", 1, 8]], ["ulit", 0, 8]])],                # satisfiable: wraps at 8 bits (a == 255)
+        [E([">", c, lit(127)])], [E(["<", c, lit(-128)])], [E(["==", c, lit(-128)])], [E(["==", a, lit(256)])], [E(["==", a, lit(-1)])],
+        [E(["in", a, [["rng", lit(9), lit(2)]]])],                             # empty range
+        [E(["notin", a, [["rng", lit(0), lit(255)]]])],
+        [E(["notin", a, [["rng", lit(0), lit(254)]]])],                        # exactly one solution
+        [["if", [[["<", a, lit(128)], [E([">", a, lit(200)])]]], [E(["<", a, lit(100)])]]],
+        [["implies", ["!=", a, lit(7)], [E(["==", b, lit(1)]), E(["==", b, lit(2)])]]],      # only a == 7
+        [["implies", [">=", a, lit(0)], [E(["==", b, lit(1)]), E(["==", b, lit(2)])]]],      # unsat
+        [E(["&", ["not", ["==", a, lit(1)]], ["==", b, lit(2)]])],
+        [E(["|", ["notin", a, [lit(1), lit(2)]], ["notin", b, [lit(3)]]])],
+        [E(["&", ["notin", a, [["rng", lit(1), lit(255)]]], ["in", b, [lit(4)]]])],
+    ]
+    for st in progs:
+        out.append(spec_single("satedge", "%s" % (st,), f3, st, calls=("randomize", "vsc_randomize", "randomize_with")))
+    for n in (3, 4, 5):
+        fs = [fld(x, ("u", 2)) for x in "abcde"[:n]]
+        out.append(spec_single("satedge", "unique over %d two-bit fields" % n, fs, [["unique", [F(x[0]) for x in fs]]]))
+    # two rand sets, the second one unsatisfiable
+    out.append(spec_single("satedge", "second rand set unsat", f3, [E(["<", a, lit(5)]), E([">", b, lit(3)]), E(["<", b, lit(3)])]))
+    out.append(spec_single("satedge", "non-random only constraint false", [fld("a", ("u", 8)), fld("n", ("u", 8), False)],
+                           [E(["<", a, lit(5)]), E(["==", F("n"), lit(1)])], [{"n": 0}, {"n": 1}]))
+    return out
+
+
+def c02_programs(tier, sd):
+    rnd = random.Random(sd)
+    base = atomic_programs(tier, rnd) + statement_programs(tier, rnd)
+    if tier == "quick":
+        base = [s for i, s in enumerate(base) if s["tag"] != "atomic" or i % 3 == 0]
+    return constfold_programs(tier, rnd) + unsat_programs(tier, rnd) + base + structure_programs(tier, rnd) + \
+        random_programs(random.Random(sd + 1), 1500 if tier == "thorough" else 150)
